@@ -35,10 +35,8 @@ func ZZC06_reg_concurrent() {
 	srv := zzreg.New("reg.example")
 	srv.TagDelete = zzBool("registry_deletes_tags")
 	zzClockHorizon(int64(time.Minute))
-	ropts := []Opts{WithSlog(slog.New(slog.NewTextHandler(io.Discard, nil)))}
-	if zzBool("response_cache") {
-		ropts = append(ropts, WithCache(time.Hour, 100))
-	}
+	// (the response cache is on: it is the configuration regctl and regsync run with)
+	ropts := []Opts{WithSlog(slog.New(slog.NewTextHandler(io.Discard, nil))), WithCache(time.Hour, 100)}
 	rg := New(ropts...)
 	rg.reghttp = reghttp.ZZNewClient()
 	reghttp.ZZHook_Client_Do = srv.Do
@@ -64,14 +62,11 @@ func ZZC06_reg_concurrent() {
 	}
 	tags := []string{"a", "b"}
 	pre := map[string]digest.Digest{}
-	for _, t := range tags {
-		switch zzInt("pre_tag", 0, 2) {
-		case 1:
-			pre[t] = digs[0]
-		case 2:
-			pre[t] = digs[1]
-		}
+	// pre-state: tag a absent or on the first manifest, tag b on the second
+	if zzBool("tag_a_exists") {
+		pre["a"] = digs[0]
 	}
+	pre["b"] = digs[1]
 	for t, d := range pre {
 		srv.Repo("repo").Tags[t] = d.String()
 	}
@@ -82,16 +77,19 @@ func ZZC06_reg_concurrent() {
 		man  int
 	}
 	var ops [2]op
+	// the first task works on tag a / the first manifest, the second on anything
 	for i := range ops {
 		ops[i].kind = zzInt("op", 0, 2)
 		ops[i].tag = tags[0]
-		if zzBool("other_tag") {
+		if i == 1 && zzBool("other_tag") {
 			ops[i].tag = tags[1]
 		}
-		if zzBool("second_manifest") {
+		if i == 1 && zzBool("second_manifest") {
 			ops[i].man = 1
 		}
 	}
+	// (two placeholder fall-backs side by side interleave some 16 requests: out of reach of the path budget)
+	zzAssume(srv.TagDelete || ops[0].kind != 1 || ops[1].kind != 1)
 	// sequential semantics on the abstract state (tags + stored manifests)
 	type state struct {
 		tags   map[string]digest.Digest
